@@ -297,6 +297,8 @@ class Runner:
 
     def _exec(self, cmd, timeout, mem_gb, cwd):
         t0 = time.time()
+        if os.environ.get('VERIF_TIMEOUT_CAP'):       # shorter per-query limit for a time-boxed run of the thorough tier
+            timeout = min(timeout, int(os.environ['VERIF_TIMEOUT_CAP']))
         full = ['/usr/bin/time', '-f', 'VERIF_RSS %M', 'timeout', '-k', '5', str(timeout), 'bash', '-c',
                 'ulimit -v %d; exec "$@"' % (mem_gb * 1024 * 1024), 'x'] + cmd
         # CBMC's SMT2 back end leaves smt2_dec_* files in TMPDIR when it is killed by the time limit: give every query its own TMPDIR
@@ -520,8 +522,18 @@ def run_check(prop, tier, seed, meta, instances, build, level='model_checking', 
             wit.update(i.name for i in rng.sample(ws, k))
     byname = {i.name: i for i in instances}
     order = sorted(instances, key=lambda i: -i.timeout)
+    # thorough tier: a wall-clock budget (VERIF_BUDGET_S, default 3 h).  Cheap instances first; what has not started when the budget is used up
+    # is listed as not explored in the evidence (the verdict covers what was explored, and says so)
+    budget = float(os.environ.get('VERIF_BUDGET_S', '10800')) if tier == 'thorough' else None
+    if budget:
+        order = sorted(instances, key=lambda i: i.timeout)
+
+    def _one(i):
+        if budget and time.time() - t0 > budget:
+            return {'name': i.name, 'family': i.family, 'bound': i.bound, 'status': 'SKIPPED', 'failed': [], 'witness': None, 'detail': 'not started: thorough-tier budget used up'}
+        return rn.run(i, i.name in wit)
     with ThreadPoolExecutor(JOBS) as ex:
-        results = list(ex.map(lambda i: rn.run(i, i.name in wit), order))
+        results = list(ex.map(_one, order))
     # a time-out under load says nothing about the code: non-optional instances without a verdict get one more run, alone (4 at a time)
     # and with twice the budget, before they are reported as inconclusive
     redo = [r['name'] for r in results if r['status'] == 'INCONCLUSIVE' and not byname[r['name']].optional and 'timeout' in (r.get('detail') or '')]
@@ -599,6 +611,7 @@ def run_check(prop, tier, seed, meta, instances, build, level='model_checking', 
         'solver_seconds': round(rn.solver_s, 1),
         'peak_rss_mb': rn.peak_rss_kb // 1024,
         'inconclusive': [r['name'] for r in results if r['status'] in ('INCONCLUSIVE', 'NO-VERDICT(optional)')],
+        'not_explored_budget': [r['name'] for r in results if r['status'] == 'SKIPPED'],
         'known_findings_hit': [k['what'] for _, k in knownhits],
         'finding_probes': {r['name']: r.get('probe') for r in results if 'probe' in r},
         'source_hash': build.hash,
